@@ -1200,6 +1200,24 @@ class ForestScenario(explore.Scenario):
             return sorted(n for n in f.parent
                           if K[n] in kinds and p in self.ancestors(f, n))
 
+        # the aggregate iterators must follow the forest whatever the CFG
+        # mentions: give every IR edges over ALL code blocks and proxies of
+        # the pool (attached to it or not) while the accessors are read
+        g = w.g
+        cfg_nodes = [O[n] for n in sorted(O) if K[n] in "KP"]
+        irs = [O[n] for n in sorted(O) if K[n] == "I"]
+        for ir in irs:
+            ir.cfg.update(g.Edge(a, b) for a, b in zip(
+                cfg_nodes, cfg_nodes[1:] + cfg_nodes[:1]))
+        try:
+            self._check_derived(w, v, names, under)
+        finally:
+            for ir in irs:
+                ir.cfg.clear()
+        return v
+
+    def _check_derived(self, w, v, names, under):
+        O, K, f = w.objs, w.kind, w.model
         for n in sorted(O):
             o = O[n]
             k = K[n]
